@@ -438,28 +438,29 @@ func (d *Decoder) Style() Style {
 func (d *Decoder) scanPre(data []byte, atEOF bool) (advance int, token []byte, err error) {
 	switch idx := bytes.Index(data, fence); {
 	case idx == 0 && !atEOF && len(data) == len(fence):
-		// We need to make sure it's followed by a newline, so get more data.
 		return 0, nil, nil
-	case idx == 0 && (atEOF || (len(data) > len(fence) && data[len(fence)] == '\n')):
+	case idx == 0 && (len(data) == len(fence) || data[len(fence)] == '\n'):
+		// The closing fence must be the whole line. What the decoder does must not
+		// depend on whether we already know that we are at EOF, only on the data,
+		// or the output changes with the way the input is split across reads.
 		d.mask |= BlockPreEnd
 		d.clearMask |= BlockPre | BlockPreEnd
 		l := len(fence)
-		if !atEOF {
+		if len(data) > l {
 			l++
 		}
 		return l, data[:l], nil
-	}
-	if atEOF {
-		return len(data), data, nil
 	}
 	newLineIDX := bytes.IndexByte(data, '\n')
 	if newLineIDX >= 0 {
 		return newLineIDX + 1, data[:newLineIDX+1], nil
 	}
+	if atEOF {
+		return len(data), data, nil
+	}
 	return 0, nil, nil
 }
 
-// scanSpan is a split function that finds and splits valid formatted spans.
 func (d *Decoder) scanSpan(data []byte, atEOF bool) (advance int, token []byte, err error) {
 	// Look for span styling directives
 	startIDX := -1
